@@ -549,75 +549,25 @@ def _keyed_before(fn, w):
 # R-MEMO
 # ---------------------------------------------------------------------------------------------------
 def _paths(fn, facts):
-    """All abstract paths of fn under boolean facts: list of (outcome kind, text, stores before the exit)."""
-    from .c16 import _exc_name
-    results = []
-
-    def ev(test):
-        from .c16 import _canon_test
-        t = _canon_test(test)
-        if t in facts:
-            return facts[t]
-        if t.startswith("not ") and t[4:] in facts:
-            return not facts[t[4:]]
-        if isinstance(test, ast.UnaryOp) and isinstance(test.op, ast.Not):
-            v = ev(test.operand)
-            return None if v is None else (not v)
-        if isinstance(test, ast.BoolOp):
-            vals = [ev(v) for v in test.values]
-            if isinstance(test.op, ast.And):
-                if any(v is False for v in vals):
-                    return False
-                return True if all(v is True for v in vals) else None
-            if any(v is True for v in vals):
-                return True
-            return False if all(v is False for v in vals) else None
-        return None
-
-    def run(stmts, stores):
-        """returns list of store-sets with which control falls through"""
-        cur = [stores]
-        for s in stmts:
-            nxt = []
-            for st in cur:
-                if isinstance(s, ast.Raise):
-                    results.append(("raise", _exc_name(s), st))
-                elif isinstance(s, ast.Return):
-                    results.append(("return", src(s.value) if s.value is not None else "None", st))
-                elif isinstance(s, ast.If):
-                    v = ev(s.test)
-                    if v is not False:
-                        nxt += run(s.body, st)
-                    if v is not True:
-                        nxt += run(s.orelse, st) if s.orelse else [st]
-                elif isinstance(s, (ast.For, ast.While)):
-                    nxt += [st]
-                    nxt += run(s.body, st)
-                elif isinstance(s, ast.Try):
-                    nxt += run(s.body, st)
-                    for h in s.handlers:
-                        nxt += run(h.body, st)
-                elif isinstance(s, ast.With):
-                    nxt += run(s.body, st)
-                elif isinstance(s, ast.Assign):
-                    names = frozenset(dotted(t) for t in s.targets if dotted(t))
-                    nxt.append(st | names)
-                else:
-                    nxt.append(st)
-            # deduplicate
-            seen, cur = set(), []
-            for x in nxt:
-                if x not in seen:
-                    seen.add(x)
-                    cur.append(x)
-        return cur
-
-    for st in run(fn.body, frozenset()):
-        results.append(("return", "None", st))
-    return results
+    """[(kind, text, names stored before the exit)] of fn under boolean facts (aliases of locals resolved)."""
+    from .c16 import _accessor_paths
+    out = []
+    for p in _accessor_paths(fn, facts, loop_mode="once"):
+        stores = set()
+        for ev in p.trace:
+            if isinstance(ev, ast.Assign):
+                for t in ev.targets:
+                    d = dotted(t)
+                    if d:
+                        stores.add(d)
+        if p.kind == "raise":
+            out.append(("raise", p.exc, frozenset(stores)))
+        else:
+            out.append(("return", p.value_text if p.value is not None else "None", frozenset(stores)))
+    return out
 
 
-def r_memo(ctx):
+def r_memo(ctx, exits=True):
     repo = ctx.repo
     for cname, facts in (("Point", {"self._value is None": False, "self._is_leaf": False}),
                          ("Expression", {"self._value is None": False, "self._is_leaf": False}),
@@ -630,6 +580,8 @@ def r_memo(ctx):
                "a derived object with a memoised value recomputes it from its operands on every call" if not stale else
                "a derived %s whose `_value` is already set returns it without recomputation: after a re-solve, held objects evaluate "
                "to the numbers of an earlier solve (nothing invalidates the memo: derived objects are not registered)" % cname, loc(fn, fn))
+    if not exits:
+        return
     # leaves: every successful solve overwrites the value of every registered leaf
     pep = common.pep_class(repo)
     root = common.solve_root(repo)
